@@ -5,6 +5,7 @@ import (
 	"go/token"
 	"go/types"
 	"math"
+	"os"
 	"sort"
 	"strings"
 	"sync"
@@ -90,6 +91,8 @@ type SchedEvent struct {
 	Nth    int    `json:"nth"`  // the nth time this thread reached Pos
 	To     int    `json:"to"`   // thread switched to
 	Kind   string `json:"kind"` // "preempt", "block", "done"
+	FromName string `json:"from_name,omitempty"`
+	ToName   string `json:"to_name,omitempty"`
 }
 
 type Frame struct {
@@ -147,6 +150,8 @@ type Thread struct {
 	noPreempt bool // resume the pending visible op without asking again
 	name     string
 	hits     map[string]int
+	ihits    map[ssa.Instruction]int
+	label    string // harness-given name (vThread)
 }
 
 type State struct {
@@ -247,7 +252,21 @@ func (st *State) recordViolation(msg, kind string, m Model) {
 		}
 	}
 	v.Sched = append([]SchedEvent(nil), st.sched...)
+	for i := range v.Sched {
+		e := &v.Sched[i]
+		if e.Thread >= 0 && e.Thread < len(st.threads) {
+			e.FromName = st.threads[e.Thread].label
+		}
+		if e.To >= 0 && e.To < len(st.threads) {
+			e.ToName = st.threads[e.To].label
+		}
+	}
 	v.Stack = st.stackString()
+	if os.Getenv("VERIF_DUMPPC") != "" {
+		for _, t := range st.pc {
+			v.Stack += "  pc: " + st.c.Print(t) + "\n"
+		}
+	}
 	st.violation = v
 }
 
@@ -361,9 +380,19 @@ func (st *State) currentModel() Model {
 	return Model{}
 }
 
+var paranoid = os.Getenv("VERIF_PARANOID") != ""
+
 func (st *State) evalModel(t *Term) (uint64, bool) {
 	if st.model == nil {
 		return 0, false
+	}
+	if paranoid {
+		for i, p := range st.pc {
+			if v, ok := st.c.Eval(p, st.model, map[*Term]uint64{}); ok && v == 0 {
+				fmt.Fprintf(os.Stderr, "PARANOID: model violates pc[%d] = %s\n model=%v\n%s\n", i, st.c.Print(p), st.model, st.stackString())
+				panic("stale model")
+			}
+		}
 	}
 	return st.c.Eval(t, st.model, map[*Term]uint64{})
 }
@@ -377,6 +406,7 @@ func (st *State) branch(cond *Term) bool {
 		d := st.prefix[st.pos]
 		st.pos++
 		st.trace = append(st.trace, d)
+		st.model = nil // a model obtained earlier need not satisfy the replayed condition
 		if d.C == 0 {
 			st.addPC(cond)
 			return true
@@ -475,6 +505,7 @@ func (st *State) concretize(t *Term, what string) uint64 {
 			st.pos++
 			st.trace = append(st.trace, d)
 			eq := st.c.Eq(t, st.c.Const(t.W, d.V))
+			st.model = nil
 			if d.C == 0 {
 				st.addPC(eq)
 				return d.V
